@@ -2,6 +2,7 @@ use std::{collections::HashMap, iter};
 
 use ff::{PrimeField, WithSmallOrderMulGroup};
 use rand_chacha::ChaCha20Rng;
+#[cfg_attr(midnight_zk_verif, allow(unused_imports))]
 use rand_core::{OsRng, RngCore, SeedableRng};
 use rayon::current_num_threads;
 
@@ -139,7 +140,10 @@ fn blind_quotient_limbs<F: PrimeField>(quotient_limbs: &mut [Vec<F>]) {
     assert!(nr_limbs >= 2);
 
     for i in 1..nr_limbs {
+        #[cfg(not(midnight_zk_verif))]
         let t = F::random(OsRng);
+        #[cfg(midnight_zk_verif)]
+        let t = crate::verif_hooks::with_entropy(|rng| F::random(rng));
         quotient_limbs[i - 1].push(t);
         quotient_limbs[i][0] -= t;
     }
